@@ -470,6 +470,11 @@ func (x *Exec) enter(st *State, fr *Frame, to *ssa.BasicBlock) bool {
 				for k, inv := range spec.Invariants {
 					x.proveClause(st, env, inv, fmt.Sprintf("%s/loop%d-preserved:%s", x.fname, ord, labelOr(inv.Label, k)), "invariant-preserved", where)
 				}
+				for k, be := range spec.Backedge {
+					env2 := x.envFor(st, fr)
+					env2.eventFloor = fr.loopMark[to]
+					x.proveClause(st, env2, be, fmt.Sprintf("%s/loop%d-backedge:%s", x.fname, ord, labelOr(be.Label, k)), "loop-backedge", where)
+				}
 				if spec.Decreases != nil {
 					if m0, ok := fr.measures[to]; ok {
 						m1, ok2 := env.evalInt(spec.Decreases.Expr)
@@ -494,6 +499,12 @@ func (x *Exec) enter(st *State, fr *Frame, to *ssa.BasicBlock) bool {
 		}
 		eff := x.P.loopEffect(fr.fn, li, to)
 		x.havocEffect(st, fr, eff)
+		nm := map[*ssa.BasicBlock]int{}
+		for k, v := range fr.loopMark {
+			nm[k] = v
+		}
+		nm[to] = len(st.events)
+		fr.loopMark = nm
 		if spec != nil {
 			env := x.envFor(st, fr)
 			for _, inv := range spec.Invariants {
@@ -658,6 +669,10 @@ func (x *Exec) step(st *State, fr *Frame, instr ssa.Instruction) {
 		p := x.allocObj(st, et, i.Comment, true)
 		pv := Val{K: KPtr, Typ: i.Type(), P: p}
 		x.bind(fr, i, pv)
+		if _, isStruct := structOf(et); !isStruct && leavesOf(et) != nil && i.Comment != "complit" && i.Comment != "varargs" && i.Comment != "new" && i.Comment != "makeslice" {
+			// a named local that escapes (captured by a closure later on, or address taken)
+			st.localCells = append(st.localCells, &localCell{p: p, t: et, captured: addressEscapes(i)})
+		}
 		if i.Comment != "" && i.Comment != "complit" && i.Comment != "varargs" && i.Comment != "new" && i.Comment != "makeslice" {
 			fr.locals[i.Comment] = append(append([]Val(nil), fr.locals[i.Comment]...), pv)
 		}
@@ -756,7 +771,15 @@ func (x *Exec) step(st *State, fr *Frame, instr ssa.Instruction) {
 	case *ssa.MakeClosure:
 		var binds []Val
 		for _, b := range i.Bindings {
-			binds = append(binds, x.val(st, fr, b))
+			bv := x.val(st, fr, b)
+			binds = append(binds, bv)
+			if bv.K == KPtr && bv.P.Kind == PObj {
+				for _, lc := range st.localCells {
+					if lc.p.Kind == PObj && lc.p.Base.S == bv.P.Base.S {
+						lc.captured = true
+					}
+				}
+			}
 		}
 		x.bind(fr, i, Val{K: KClosure, Fn: i.Fn.(*ssa.Function), Binds: binds, Typ: i.Type()})
 	case *ssa.MakeMap:
@@ -1546,4 +1569,26 @@ func (x *Exec) idx(off, i Term) Term {
 		}
 	}
 	return app(sInt, "+", off, i)
+}
+
+// addressEscapes: the address of the Alloc is used other than by loads, stores and closure bindings
+// (passed to a call, stored somewhere, converted): then callees may reach the cell at any time.
+func addressEscapes(a *ssa.Alloc) bool {
+	refs := a.Referrers()
+	if refs == nil {
+		return true
+	}
+	for _, r := range *refs {
+		switch u := r.(type) {
+		case *ssa.UnOp:
+		case *ssa.Store:
+			if u.Val == ssa.Value(a) {
+				return true
+			}
+		case *ssa.MakeClosure, *ssa.DebugRef:
+		default:
+			return true
+		}
+	}
+	return false
 }
